@@ -197,6 +197,20 @@ theorem recv_closed_session_survived_pre :
     (Recv.run {} [.start, .recv 0 7 true, .endS 0, .start]).know = [] := by
   decide
 
+/-- REFUTED for a session REPLACED while alive: "a session knows exactly what the peer announced
+in it" fails when the tuple is connected again over its live session — the table entry of the
+tuple survives (only the end of the REGISTERED session clears it). Witness: session 0 announces
+channel 7, session 1 of the same tuple starts over it and announces nothing (the peer released 7 in
+between and its unsubscribe went to no started session): the router keeps listing the peer under 7.
+`recv_reconnected_session_exact` is the part that holds (previous session ended first). The engine
+replays the witness on real routers every run (known finding floodsub-replaced-session-stale). -/
+theorem recv_replaced_live_session_exact_false :
+    ¬ (∀ evs : List Recv.Ev, ∀ k, (Recv.run {} evs).cur = some k →
+        (∀ ch b, Recv.Ev.recv k ch b ∉ evs) → (Recv.run {} evs).know = []) := by
+  intro h
+  have := h [.start, .recv 0 7 true, .start] 1 (by decide) (by intro ch b; simp)
+  exact absurd this (by decide)
+
 /-! ### after Release the handlers are never invoked -/
 
 /-- Once `Release` has passed its first critical section (`relA`: the handlers are cleared under
